@@ -28,5 +28,16 @@ worktree. Kept under `seeded/<id>-<k>/` (patch.diff, demo.cpp, run.sh, meta.json
 row says how the check was strengthened.
 
 """ + t2
+tb = ["", "### 9.5 Trusted base as built (generated from the evidence files of the last committed runs)", "",
+      "Common to all properties: the Coq 8.16.1 kernel (`coqc`, full `.vo` builds; `vm_compute` for every reflective/table check; no `native_compute`; `coqchk -o` in the thorough tier where noted in the evidence); extraction with `Require Import ExtrOcamlBasic` ONLY — its directives are `Extract Inductive bool => bool [true false]`, `option => option [Some None]`, `unit => unit [()]`, `list => list [\"[]\" \"(::)\"]`, `prod => \"( * )\" [\"(,)\"]`, `sumbool => bool`, `sumor => option`, and `Extract Inlined Constant andb/orb/negb/fst/snd`; no other `Extract Constant` / `Extract Inductive` anywhere (`grep -rn 'Extract ' coq/` shows only `Extraction \"…\"` commands); `Z`, `N`, `positive`, `nat`, `Q` extract as their Coq inductives; OCaml 4.13.1; the C++ harnesses, python generators, canonicalisers and property oracles; g++ 12 with ASan/UBSan/TSan; clang 14's `-ast-dump=json` under every translator/extractor. No `Axiom`/`Parameter`/`Admitted`/`admit` anywhere under `coq/` (scanned on every run, fail closed); external behaviour is always a `Section` variable with its contract as a `Section` hypothesis.", "",
+      "| id | obligations | axioms reported by `Print Assumptions` | property-specific trusted parts (translators, extractors, oracles modelled not verified) |", "|---|---|---|---|"]
+for evp in sorted(glob.glob(os.path.join(H, "evidence", "C*.json"))):
+    ev = json.load(open(evp)); cov = ev["coverage"]; pid = ev["property_id"]
+    ax = [t for t in cov.get("trusted_base", []) if t.startswith("Print Assumptions")]
+    axs = ax[0].replace("Print Assumptions: ", "") if ax else "-"
+    rest = [t for t in cov.get("trusted_base", []) if not t.startswith("Print Assumptions") and not t.startswith("Coq 8.16.1 kernel") and not t.startswith("Extraction to OCaml")]
+    rest_s = "; ".join(x.replace("|", "\\|").replace("\n", " ")[:260] for x in rest[:6])
+    tb.append("| %s | %s/%s | %s | %s |" % (pid, cov.get("discharged"), cov.get("obligations"), axs.replace("|", "\\|"), rest_s))
+out += "\n".join(tb) + "\n"
 open(os.path.join(H, "DESIGN.md"), "w").write(out)
 print("DESIGN.md section 9.2-9.4 rewritten")
